@@ -207,3 +207,28 @@ def prop_aesmode(kind, k, iv, ctr, seg, d, cuts, direction):
         n = next(i for i, (x, y) in enumerate(zip(got, want)) if x != y) if len(got) == len(want) else min(len(got), len(want))
         return f"FAIL {kind} {direction} differs from SP 800-38A at byte {n} (counter {ctr:#x}, {len(data)} bytes, chunks at {bounds})"
     return "ok"
+
+
+@op("ms")
+def modestream(kind, k, iv, ctr, seg, direction, pad, bs, d):
+    """blockfeeder.encrypt_stream / decrypt_stream on in-memory streams"""
+    import io as _io
+    key, data = unhx(k), unhx(d)
+    ivb = None if iv == "none" else unhx(iv)
+    try:
+        if kind == "ecb":
+            m = pyaes_aes.AESModeOfOperationECB(key)
+        elif kind == "cbc":
+            m = pyaes_aes.AESModeOfOperationCBC(key, ivb)
+        elif kind == "cfb":
+            m = pyaes_aes.AESModeOfOperationCFB(key, ivb, int(seg))
+        elif kind == "ofb":
+            m = pyaes_aes.AESModeOfOperationOFB(key, ivb)
+        else:
+            m = pyaes_aes.AESModeOfOperationCTR(key, pyaes_aes.Counter(int(ctr)))
+        out = _io.BytesIO()
+        f = blockfeeder.decrypt_stream if direction == "dec" else blockfeeder.encrypt_stream
+        f(m, _io.BytesIO(data), out, int(bs), pad)
+        return "ok " + (hx(out.getvalue()) or "-")
+    except Exception as e:
+        return "err " + type(e).__name__
